@@ -21,6 +21,9 @@ PRUNE = [
     H("H_C04_prune_map", "MapOf(Bool(),Bool()) on 13/16 symbolic words -> prune -> replay", reach=["valid", "invalid", "pruned-something"], quick=Q, thorough=T),
     H("H_C04_prune_filter", "two draws of Bool().Filter(id) on 6/7 symbolic words -> prune -> replay", reach=["valid", "invalid", "pruned-something"], quick=Q, thorough=T),
     H("H_C04_prune_perm", "Permutation of 3 elements (unbiased rejection loop) on 8/10 symbolic words -> prune -> replay", reach=["valid", "invalid", "pruned-something"], quick=Q, thorough=T),
+    H("H_C04_prune_repeat", "T.Repeat with 1..2 actions, each a symbolic 3-opcode program over {return, draw bool, Errorf, Skip}, -rapid.steps=2, whole test case through checkOnce on 9/12 symbolic words -> prune -> replay: same verdict, same failure message, same re-recording", reach=["valid", "invalid", "failed", "pruned-something"], quick=Q, thorough=T),
+]
+PRUNE_MORE = [
     H("H_C04_prune_intReject", "one bounded integer draw genUintRange(min,max,bias) for any 64-bit range (span bit length: 16 classes quick / all thorough), biased and unbiased, followed by a raw 64-bit draw, on 13/20 symbolic words (up to 11/18 rejected samples) -> prune -> replay", reach=["valid", "invalid", "pruned-something"], quick=Q, thorough=T),
     H("H_C04_prune_runeDie", "two draws of RuneFrom(5 runes) (loadedDie.roll + genIndex rejection sampling) on 16 symbolic words -> prune -> replay", reach=["valid", "invalid", "pruned-something"], thorough_only=True, thorough=T),
 ]
@@ -150,7 +153,7 @@ PROPS = {
     },
     "C04": {
         "level": "model_checking",
-        "harnesses": PRUNE,
+        "harnesses": PRUNE + PRUNE_MORE,
         "assumptions": ENGINE_ASSUME + ["the comparison float64(u)*2^-53 >= c of flipBiasedCoin is rewritten exactly to u >= ceil(c*2^53) (u < 2^53: conversion and scaling are exact)"],
     },
     "C05": {
